@@ -1,2 +1,246 @@
-From Coq Require Import ZArith List Bool Reals QArith Lra.
-From HV Require Import Common.Generic C18.Model C18.Lemmas.
+(** C18 property theorems: statements only; proofs are in Lemmas.v.
+    [RO] instance = object of the theorems; the [QO] instance that the correspondence executes against the
+    implementation computes the same values (the [*_agrees_on_Q] theorems; unconditional because 1/0 = 0 in
+    both instances).  Indices: an image is a total function of (row i along x, column j along y) with explicit
+    sizes nx, ny; pixel (S i, S j) with S (S i) < nx is an interior pixel. *)
+From Coq Require Import ZArith QArith Qround Qabs Qreals Reals List Bool Lra Lia Permutation.
+From HV Require Import Common.Generic Common.Cmp C18.Model C18.Lemmas.
+Import ListNotations.
+Local Open Scope R_scope.
+
+(** ** normalize  (sum <> 0 is the property's own premise: the mean must exist) *)
+Theorem normalize_mean1 : forall l : list R, tsum RO l <> 0 -> tmean RO (normalize RO l) = 1.
+Proof. exact normalize_mean1. Qed.
+Print Assumptions normalize_mean1.
+
+Theorem normalize_idem : forall l : list R, tsum RO l <> 0 -> normalize RO (normalize RO l) = normalize RO l.
+Proof. exact normalize_idem. Qed.
+Print Assumptions normalize_idem.
+
+(* any non-zero factor, in particular every positive one *)
+Theorem normalize_scale_inv : forall (l : list R) c, c <> 0 -> tsum RO l <> 0 ->
+  normalize RO (map (fun v => c * v) l) = normalize RO l.
+Proof. exact normalize_scale_inv. Qed.
+Print Assumptions normalize_scale_inv.
+
+(** ** bg_correct *)
+Theorem bg_formula : forall nx ny xc yc (raw bg df : image (T:=R)),
+  (forall i j, (i < nx)%nat -> (j < ny)%nat -> 0 < bg i j - df i j) ->
+  bg_correct RO true nx ny xc yc raw bg df =
+  Some (tabulate nx ny (fun i j => (raw i j - df i j) / (bg i j - df i j))).
+Proof. exact bg_formula. Qed.
+Print Assumptions bg_formula.
+
+(* pixelwise, also when other background pixels are dead *)
+Theorem bg_formula_pixel : forall nx ny xc yc (raw bg df : image (T:=R)) i j, 0 < bg i j - df i j ->
+  bgc_pix RO nx ny xc yc raw bg df i j = Some ((raw i j - df i j) / (bg i j - df i j)).
+Proof. exact bg_pix_formula. Qed.
+Print Assumptions bg_formula_pixel.
+
+Theorem bg_self_one : forall nx ny xc yc (raw : image (T:=R)),
+  (forall i j, (i < nx)%nat -> (j < ny)%nat -> 0 < raw i j) ->
+  bg_correct RO true nx ny xc yc raw raw (zero_img RO) = Some (tabulate nx ny (fun _ _ => 1)).
+Proof. exact bg_self_one. Qed.
+Print Assumptions bg_self_one.
+
+(* refusals: shape/spacing guard, and a background that is dead in a corner *)
+Theorem bg_refusals : forall nx ny xc yc (raw bg df : image (T:=R)),
+  bg_correct RO false nx ny xc yc raw bg df = None /\
+  forall g i j, is_corner nx ny i j -> (i < nx)%nat -> (j < ny)%nat -> bg i j - df i j <= 0 ->
+     bg_correct RO g nx ny xc yc raw bg df = None.
+Proof. intros. split; [apply bg_guard_false|intros g i j; apply bg_dead_corner]. Qed.
+Print Assumptions bg_refusals.
+
+(** ** subimage *)
+(* whatever the extents (fitting, clipped, wrapped by negative indices): every retained pixel keeps its value
+   and both physical coordinates; the result is again a well-formed image of the predicted size *)
+Theorem crop_values_coords : forall (C A : Type) (im : cimage C A) ex ey (dc : C) (da : A), cwf im ->
+  let out := crop im ex ey in
+  let ax := sl_lo (fst ex) (cxs im) in let ay := sl_lo (fst ey) (cys im) in
+  cwf out /\
+  length (cxs out) = sl_len (fst ex) (snd ex) (cxs im) /\
+  length (cys out) = sl_len (fst ey) (snd ey) (cys im) /\
+  forall p q, (p < length (cxs out))%nat -> (q < length (cys out))%nat ->
+    nth p (cxs out) dc = nth (ax + p) (cxs im) dc /\
+    nth q (cys out) dc = nth (ay + q) (cys im) dc /\
+    nth q (nth p (cpix out) []) da = nth (ay + q) (nth (ax + p) (cpix im) []) da.
+Proof. exact @crop_values_coords. Qed.
+Print Assumptions crop_values_coords.
+
+(* all centres (any rational: integer, half-integer, ...) and all even sizes that fit: exactly 2h pixels
+   starting at round_half_even(c) - h *)
+Theorem crop_fits_even : forall (A : Type) (l : list A) c h,
+  (0 <= h)%Z -> (0 <= rhe c - h)%Z -> (rhe c + h <= Z.of_nat (length l))%Z ->
+  let e := crop_extent c (2 * h) in
+  sl_lo (fst e) l = Z.to_nat (rhe c - h) /\ sl_len (fst e) (snd e) l = Z.to_nat (2 * h).
+Proof. exact @crop_fits_even. Qed.
+Print Assumptions crop_fits_even.
+
+Theorem crop_extent_even_odd : forall c h,
+  crop_extent c (2 * h) = ((rhe c - h)%Z, (rhe c + h)%Z) /\
+  crop_extent c (2 * h + 1) =
+    (if Z.even (rhe c - h) then ((rhe c - h)%Z, (rhe c + h)%Z) else ((rhe c - h - 1)%Z, (rhe c + h + 1)%Z)).
+Proof. intros. split; [apply crop_extent_even|apply crop_extent_odd]. Qed.
+Print Assumptions crop_extent_even_odd.
+
+(* np.round as modelled: a nearest integer, the even one at a tie, identity on integers *)
+Theorem round_half_even_spec : forall q : Q,
+  (Qabs (q - inject_Z (rhe q)) <= 1#2)%Q /\
+  ((q - inject_Z (Qfloor q) == 1#2)%Q -> Z.even (rhe q) = true) /\
+  forall z, rhe (inject_Z z) = z.
+Proof. intros q. split; [apply rhe_nearest|split; [apply rhe_tie_even|apply rhe_int]]. Qed.
+Print Assumptions round_half_even_spec.
+
+Theorem subimage_arguments : forall (C A : Type) (im : cimage C A) ndim,
+  (forall cx cy rest s, (2 <= ndim)%nat ->
+     subimage ndim im (cx :: cy :: rest) (inl s) = Some (crop im (crop_extent cx s) (crop_extent cy s))) /\
+  (forall center l, length l <> ndim -> subimage ndim im center (inr l) = None).
+Proof. intros. split; [intros; apply subimage_scalar; assumption|intros; apply subimage_bad_arity; assumption]. Qed.
+Print Assumptions subimage_arguments.
+
+(** ** zero_filter  ([midway c i]: coordinate i+1 lies midway between i and i+2, e.g. any uniform grid) *)
+Theorem zf_positive_kept : forall nx ny xc yc (f : image (T:=R)) i j, 0 < f i j ->
+  zf_pix RO nx ny xc yc f i j = Some (f i j).
+Proof. exact zf_positive_kept. Qed.
+Print Assumptions zf_positive_kept.
+
+Theorem zf_isolated_interior : forall nx ny xc yc (f : image (T:=R)) i j,
+  f (S i) (S j) <= 0 -> 0 < f i (S j) -> 0 < f (S (S i)) (S j) -> 0 < f (S i) j -> 0 < f (S i) (S (S j)) ->
+  (S (S i) < nx)%nat -> (S (S j) < ny)%nat -> midway xc i -> midway yc j ->
+  zf_pix RO nx ny xc yc f (S i) (S j) =
+  Some ((f i (S j) + f (S (S i)) (S j) + f (S i) j + f (S i) (S (S j))) / 4).
+Proof. exact zf_isolated_interior. Qed.
+Print Assumptions zf_isolated_interior.
+
+(* the four edges: first/last row (i = 0 / nx <= S i), first/last column *)
+Theorem zf_edge : forall nx ny xc yc (f : image (T:=R)),
+  (forall i j, (i = 0%nat \/ (nx <= S i)%nat) ->
+     f i (S j) <= 0 -> 0 < f i j -> 0 < f i (S (S j)) -> (S (S j) < ny)%nat -> midway yc j ->
+     zf_pix RO nx ny xc yc f i (S j) = Some ((f i j + f i (S (S j))) / 2)) /\
+  (forall i j, (j = 0%nat \/ (ny <= S j)%nat) ->
+     f (S i) j <= 0 -> 0 < f i j -> 0 < f (S (S i)) j -> (S (S i) < nx)%nat -> midway xc i ->
+     zf_pix RO nx ny xc yc f (S i) j = Some ((f i j + f (S (S i)) j) / 2)).
+Proof. intros. split; intros i j [->|H].
+  - apply zf_edge_x0. - apply zf_edge_x1, H. - apply zf_edge_y0. - apply zf_edge_y1, H. Qed.
+Print Assumptions zf_edge.
+
+Theorem zf_corner_rejected : forall nx ny xc yc (f : image (T:=R)) i j,
+  is_corner nx ny i j -> (i < nx)%nat -> (j < ny)%nat -> f i j <= 0 -> zero_filter RO nx ny xc yc f = None.
+Proof. exact zf_corner_rejected. Qed.
+Print Assumptions zf_corner_rejected.
+
+(* the returned image is the per-pixel result; one unfillable pixel refuses the image; a clean image is unchanged *)
+Theorem zero_filter_image : forall nx ny xc yc (f : image (T:=R)),
+  (forall rows, zero_filter RO nx ny xc yc f = Some rows ->
+     forall i j, (i < nx)%nat -> (j < ny)%nat -> zf_pix RO nx ny xc yc f i j = Some (getpix RO rows i j)) /\
+  (forall i j, (i < nx)%nat -> (j < ny)%nat -> zf_pix RO nx ny xc yc f i j = None ->
+     zero_filter RO nx ny xc yc f = None) /\
+  ((forall i j, (i < nx)%nat -> (j < ny)%nat -> 0 < f i j) -> zero_filter RO nx ny xc yc f = Some (tabulate nx ny f)).
+Proof. intros. split; [apply zero_filter_sound|split; [apply zero_filter_refuses|apply zero_filter_all_positive]]. Qed.
+Print Assumptions zero_filter_image.
+
+(** ** detrend *)
+(* with the 1-D detrender as an oracle constrained by three hypotheses *)
+Theorem detrend_plane_oracle : forall dt : nat -> (nat -> R) -> nat -> R,
+  (forall n u v k, dt n (fun i => u i + v i) k = dt n u k + dt n v k) ->
+  (forall n u v k, (forall i, (i < n)%nat -> u i = v i) -> u k = v k -> dt n u k = dt n v k) ->
+  (forall n a b k, (k < n)%nat -> dt n (fun i => a + b * tnat RO i) k = 0) ->
+  forall nx ny f a b c i j, (i < nx)%nat -> (j < ny)%nat ->
+    detrend_with dt nx ny (imadd RO f (plane RO a b c)) i j = detrend_with dt nx ny f i j.
+Proof. exact detrend_with_plane. Qed.
+Print Assumptions detrend_plane_oracle.
+
+(* the least-squares line residual (the model of scipy.signal.detrend that the correspondence executes)
+   satisfies the three hypotheses for every length *)
+Theorem lsq_detrender_meets_oracle_hyps :
+  (forall n u v k, dt_seq RO n (fun i => u i + v i) k = dt_seq RO n u k + dt_seq RO n v k) /\
+  (forall n u v k, (forall i, (i < n)%nat -> u i = v i) -> u k = v k -> dt_seq RO n u k = dt_seq RO n v k) /\
+  (forall n a b k, (k < n)%nat -> dt_seq RO n (fun i => a + b * tnat RO i) k = 0).
+Proof. split; [exact dt_seq_add|split; [exact dt_seq_ext|exact dt_seq_affine]]. Qed.
+Print Assumptions lsq_detrender_meets_oracle_hyps.
+
+Theorem detrend_plane : forall nx ny (f : image (T:=R)) a b c i j, (i < nx)%nat -> (j < ny)%nat ->
+  detrend RO nx ny (imadd RO f (plane RO a b c)) i j = detrend RO nx ny f i j /\
+  detrend RO nx ny (plane RO a b c) i j = 0.
+Proof. intros. split; [apply detrend_plane|apply detrend_of_plane]; assumption. Qed.
+Print Assumptions detrend_plane.
+
+(** ** Accumulator *)
+Theorem welford_equals_batch : forall l : list R, l <> [] ->
+  acc_mean (push_all RO l) = tmean RO l /\ acc_var RO (push_all RO l) = Some (batch_var RO l).
+Proof. exact welford_mean_var. Qed.
+Print Assumptions welford_equals_batch.
+
+Theorem welford_order_independent : forall l l' : list R, Permutation l l' ->
+  acc_mean (push_all RO l) = acc_mean (push_all RO l') /\ acc_var RO (push_all RO l) = acc_var RO (push_all RO l').
+Proof. exact welford_order. Qed.
+Print Assumptions welford_order_independent.
+
+Theorem welford_nothing_pushed : acc_mean (push_all RO []) = 0 /\ acc_var RO (push_all RO []) = None.
+Proof. exact welford_empty. Qed.
+Print Assumptions welford_nothing_pushed.
+
+(** ** make_center_priors *)
+(* mean = centre*spacing + origin, sd = uncertainty*spacing; if the finder is within [unc] pixels of the true
+   pixel position t, the true physical position is within one sd of the prior mean *)
+Theorem center_prior_arith : forall cf sp org unc t, 0 < sp -> Rabs (cf - t) <= unc ->
+  let '(mu, sd) := center_prior RO cf sp org unc in
+  mu = cf * sp + org /\ sd = unc * sp /\ Rabs (mu - (t * sp + org)) <= sd.
+Proof. exact center_prior_covers. Qed.
+Print Assumptions center_prior_arith.
+
+Theorem extent_is_span_plus_mean_step : forall (x y : R) t,
+  extent RO (x :: y :: t) = (last (x :: y :: t) 0 - x) * (1 + / tnat RO (S (length t))).
+Proof. exact extent_formula. Qed.
+Print Assumptions extent_is_span_plus_mean_step.
+
+(** ** the executed instances are the proved one: [QO] (plain rationals) and [QOr] (fractions reduced after
+    every operation; used for long folds) both commute with Q2R, and any such instance computes, through every
+    model function, the image under Q2R of what the R instance computes *)
+Theorem executed_instances_are_homomorphic : hom QO /\ hom QOr.
+Proof. split; [exact hom_QO|exact hom_QOr]. Qed.
+Print Assumptions executed_instances_are_homomorphic.
+
+Theorem model_agrees_on_Q : forall O : Ops Q, hom O ->
+  (forall l, map Q2R (normalize O l) = normalize RO (map Q2R l)) /\
+  (forall nx ny xc yc f, option_map (map (map Q2R)) (zero_filter O nx ny xc yc f)
+                         = zero_filter RO nx ny (cQ2R xc) (cQ2R yc) (imQ2R f)) /\
+  (forall g nx ny xc yc raw bg df, option_map (map (map Q2R)) (bg_correct O g nx ny xc yc raw bg df)
+                         = bg_correct RO g nx ny (cQ2R xc) (cQ2R yc) (imQ2R raw) (imQ2R bg) (imQ2R df)) /\
+  (forall nx ny f i j, Q2R (detrend O nx ny f i j) = detrend RO nx ny (imQ2R f) i j) /\
+  (forall l, accQ2R (push_all O l) = push_all RO (map Q2R l)) /\
+  (forall a, Q2R (acc_mean a) = acc_mean (accQ2R a) /\ option_map Q2R (acc_var O a) = acc_var RO (accQ2R a)) /\
+  (forall cf sp org unc, (let '(mu, sd) := center_prior O cf sp org unc in (Q2R mu, Q2R sd))
+                         = center_prior RO (Q2R cf) (Q2R sp) (Q2R org) (Q2R unc)).
+Proof. intros O H. split; [exact (normalize_Q_R O H)|]. split; [exact (zero_filter_Q_R O H)|].
+  split; [exact (bg_correct_Q_R O H)|]. split; [exact (detrend_Q_R O H)|]. split; [exact (push_all_Q_R O H)|].
+  split; [intros a; split; [apply acc_mean_Q_R|apply (acc_var_Q_R O H)]|exact (center_prior_Q_R O H)]. Qed.
+Print Assumptions model_agrees_on_Q.
+
+(** ** non-vacuity: the hypotheses are satisfiable by concrete non-trivial objects (run on the Q instance) *)
+Example hyps_satisfiable :
+  (* an isolated interior dead pixel on a uniform 3x3 grid is replaced by the mean of its four neighbours *)
+  option_eqb (list_eqb qlist_eqb)
+     (zero_filter QO 3%nat 3%nat (getc QO [0; 1#2; 1]%Q) (getc QO [0; 1#2; 1]%Q)
+        (getpix QO [[1; 2; 3]; [4; 0; 8]; [5; 6; 7]]%Q)) (Some [[1; 2; 3]; [4; 5; 8]; [5; 6; 7]]%Q) = true /\
+  (* a dead corner is refused *)
+  zero_filter QO 2%nat 2%nat (getc QO [0; 1]%Q) (getc QO [0; 1]%Q) (getpix QO [[0; 2]; [4; 1]]%Q) = None /\
+  (* midway holds on a uniform grid, is_corner on the last pixel *)
+  midway (fun k => 3 + 0.5 * tnat RO k) 0%nat /\ is_corner 4%nat 5%nat 3%nat 4%nat /\
+  (* a fitting even crop on a half-integer centre (2.5 rounds to 2), well-formed image *)
+  crop_extent (5#2) 2 = (1, 3)%Z /\ cwf (mkC [0; 1; 2; 3]%Q [0; 1; 2]%Q [[1; 2; 3]; [4; 5; 6]; [7; 8; 9]; [10; 11; 12]]%Z) /\
+  subimage 3%nat (mkC [0; 1; 2; 3]%Q [0; 1; 2]%Q [[1; 2; 3]; [4; 5; 6]; [7; 8; 9]; [10; 11; 12]]%Z) [5#2; 1; 0]%Q (inl 2%Z)
+    = Some (mkC [1; 2]%Q [0; 1]%Q [[4; 5]; [7; 8]]%Z) /\
+  (* normalize with non-zero sum; Welford on a non-empty stream *)
+  tsum RO [1; 2; 3] <> 0 /\ qlist_eqb (normalize QO [1; 2; 3]%Q) [1#2; 1; 3#2]%Q = true /\
+  Qeq_bool (acc_mean (push_all QO [1; 2; 6]%Q)) 3 = true /\
+  (* detrend of a plane sampled on 3x4 is 0 at a sample point *)
+  Qeq_bool (detrend QO 3%nat 4%nat (plane QO 5 (1#2) (-3))%Q 1%nat 2%nat) 0 = true.
+Proof.
+  split; [vm_compute; reflexivity|]. split; [vm_compute; reflexivity|].
+  split; [split; unfold tnat; simpl; lra|].
+  split; [split; right; reflexivity|].
+  split; [vm_compute; reflexivity|]. split; [split; [reflexivity|repeat constructor]|].
+  split; [vm_compute; reflexivity|]. split; [simpl; lra|].
+  split; [vm_compute; reflexivity|]. split; vm_compute; reflexivity.
+Qed.
